@@ -20,9 +20,6 @@ def Row.isNull : Row → Bool
   | .null => true
   | _ => false
 
-/-- no top-level key of the table is a tense code (the English `bp` branch tests `t in conjugationTable`) -/
-def Table.keysOK (tb : Table) : Bool := tb.keys.all (fun k => (Tense.ofCode? k).isNone)
-
 /-- English: rows among `b p ps pp pr`; `b pp pr` strings; `p ps` a string or six cells -/
 def wfRowEn (code : Str) (r : Row) : Bool :=
   match Tense.ofCode? code with
@@ -31,7 +28,7 @@ def wfRowEn (code : Str) (r : Row) : Bool :=
   | _ => false
 
 def wfTableEn (tb : Table) : Bool :=
-  tb.hasT && tb.keysOK && tb.rows.all (fun kr => wfRowEn kr.1 kr.2)
+  tb.hasT && tb.rows.all (fun kr => wfRowEn kr.1 kr.2)
 
 /-- French: the eight finite rows have six cells, `pp` four cells, `pr` a string or null, `b` a string -/
 def wfRowFr (code : Str) (r : Row) : Bool :=
@@ -45,7 +42,7 @@ def wfRowFr (code : Str) (r : Row) : Bool :=
 def frRowCodes : List Tense := [.p, .i, .f, .ps, .c, .s, .si, .ip, .pr, .pp, .b]
 
 def wfTableFr (tb : Table) : Bool :=
-  tb.hasT && tb.keysOK && tb.rows.all (fun kr => wfRowFr kr.1 kr.2) &&
+  tb.hasT && tb.rows.all (fun kr => wfRowFr kr.1 kr.2) &&
   frRowCodes.all (fun t => (tb.row? t.code).isSome)
 
 /-- the verb's table exists, is well formed, and the lemma ends with the table's ending -/
